@@ -1901,6 +1901,21 @@ impl Drop for Db {
 }
 
 impl Db {
+	/// Shut the database down like `drop` does and report a failure of the background workers:
+	/// commits are only queued, an error that occurred while they were processed is otherwise
+	/// seen by the next commit only.
+	pub(crate) fn close(self) -> Result<()> {
+		let inner = self.inner.clone();
+		drop(self);
+		let err = inner.bg_err.lock().clone();
+		match err {
+			Some(err) => Err(Error::Background(err)),
+			None => Ok(()),
+		}
+	}
+}
+
+impl Db {
 	fn drop_inner(&mut self) {
 		self.inner.shutdown();
 		if let Some(t) = self.log_thread.take() {
